@@ -145,7 +145,8 @@ TEXT = {
          'plan and the race log as artefacts. Each plan ends with a concurrent burst of large compressed calls and a storm of 640 small calls (incl. bidi calls '
          'the handler fails while the sender goroutine is busy; some handlers return one shared sentinel error value). A second sub-check (retained-values) '
          'drives 2..6 calls through one client against scripted, partly defective responses and compares every error/header/trailer/message object '
-         'handed to the application with its own snapshot after the later calls.',
+         'handed to the application with its own snapshot after the later calls; a third (handler-peers) sends 2..5 raw requests from different peers '
+         'through one handler set and requires each response to be byte-identical to the answer of a fresh handler set to that request alone.',
  'design_ref': 'DESIGN.md §5 C13',
  'note': 'Binary built with -race -tags verif. A race report whose stacks are entirely harness frames is a harness bug (exit 2). Watchdog expiry is exit 2, '
          'never a violation.',
